@@ -73,32 +73,42 @@ CHECKS["C01"] = dict(
         "exhausted workers, _take_snapshot with its alignment assertion, state_dict, construction from a state dict incl. fast-forward) parameterised by an explicit result-arrival SCHEDULE. "
         "PROVED in Coq (Properties_C01.v, SdlMapProofs.v) for map-style datasets, every configuration, every snapshot interval, every interruption point k and EVERY pair of arrival schedules: "
         "state_dict() after k batches loaded into a new iterator yields exactly batches k, k+1, ... then StopIteration; closed under chains of checkpoint/resume of any length (the resumed "
-        "state is again a 'good' state at the same absolute position). For iterable datasets the full statement is in the file as the target and is decided by correspondence. Tied to the code "
+        "state is again a 'good' state at the same absolute position). ITERABLE datasets (SdlIterProofs.v, SdlIterResume.v): proved for every configuration and every pair of arrival schedules "
+        "when snapshot_every_n_steps=0 (C01_iter_resume_exact_no_snapshots); for EVERY interval the main-process side of a resume is proved exact for every arrival schedule given the worker "
+        "entries of the state dict (C01_iter_resume_main_exact), and every worker entry a run writes is proved to be the state after the answer to an already handed-out task "
+        "(C05_iter_checkpoint_never_ahead); that these entries are the LAST such states for intervals >= 1 remains the target (small-scope theorem + correspondence). Tied to the code "
         "on every run by lockstep correspondence with REAL worker processes driven through the same arrival schedule (batch, main-process bookkeeping and abstracted state_dict() after every "
         "next(); checkpoint/resume chains at every k) and by the direct oracle resumed == uninterrupted suffix incl. the following epoch (also num_workers=0, persistent workers, shuffle, stateful samplers).",
    design="DESIGN.md 4 C01",
-   note="Proof scope: map-style without failing indices (all I, W, P, schedules, k, chains); iterable datasets, num_workers=0, persistent workers and shuffle are covered by correspondence/oracle, "
-        "not by a theorem (partial in that sense). Trusted: Coq kernel + vm_compute; the arrival-scheduling multiprocessing context; harness datasets (user contract: load_state_dict(state_dict()) "
+   note="Proof scope: map-style without failing indices (all I, W, P, schedules, k, chains); iterable datasets: interval 0 in full, intervals >= 1 main-process side + never-ahead entries; "
+        "num_workers=0, persistent workers and shuffle are covered by correspondence/oracle, not by a theorem (partial in that sense). Trusted: Coq kernel + vm_compute; the arrival-scheduling multiprocessing context; harness datasets (user contract: load_state_dict(state_dict()) "
         "restores the position before exhaustion); known finding D13 matched specifically.",
    technique="Coq proof over hand-written Gallina model + lockstep correspondence under scheduled arrival (vm_compute) + direct oracle")
 CHECKS["C03"] = dict(
    text="Same SDL model. PROVED (Properties_C03.v): for map-style datasets, every configuration and EVERY arrival schedule, one epoch is exactly the sampler's batches, each once, in order "
-        "(error outcome at failing batches), then StopIteration, and no internal assertion fires; also from any mid-epoch good state. The iterable statement (column-major interleave of the "
-        "per-worker batch lists) is stated as target. Correspondence: one epoch under random arrival schedules with real workers, every next() compared with the model; oracle: equality with the "
+        "(error outcome at failing batches), then StopIteration, and no internal assertion fires; also from any mid-epoch good state. ITERABLE datasets (C03_iter_epoch_exact, SdlIterProofs.v): "
+        "for every configuration (any num_workers, prefetch_factor, snapshot interval, shards incl. empty/uneven, batch_size incl. None, drop_last) and EVERY arrival schedule one epoch is exactly "
+        "the column-major interleave of the per-worker batch lists, then StopIteration; no assertion fires, no deadlock, fuel never exhausted (slots of the round-robin walk, retirement on "
+        "arrival, no starvation of the shrinking window). Correspondence: one epoch under random arrival schedules with real workers, every next() compared with the model; oracle: equality with the "
         "list reference AND with torch.utils.data.DataLoader on identical arguments; free-running multi-epoch runs for num_workers=0, persistent workers incl. abandoned epochs, shuffle "
         "(permutation), in_order=False (multiset).",
    design="DESIGN.md 4 C03",
-   note="Proof scope: map-style (snapshot interval <= 1 or no failing index); iterable datasets by correspondence + torch differential only. Trusted: Coq kernel + vm_compute; "
+   note="Proof scope: map-style (snapshot interval <= 1 or no failing index) and iterable datasets (all configurations, all schedules); in_order=False, persistent workers across epochs and "
+        "shuffle by correspondence + torch differential. Trusted: Coq kernel + vm_compute; "
         "torch.utils.data.DataLoader as the named reference; arrival-scheduling context.",
    technique="Coq proof over hand-written Gallina model + lockstep correspondence under scheduled arrival + torch differential oracle")
 CHECKS["C05"] = dict(
    text="Same SDL model, whose next() takes the arrival SCHEDULE as an argument. PROVED (Properties_C05.v) for map-style datasets: any two schedules give the same epoch; the continuation "
-        "from a checkpoint after k batches is independent of the schedule it was taken under and of the schedule it is resumed under (all k, all schedule pairs). Correspondence: the same "
+        "from a checkpoint after k batches is independent of the schedule it was taken under and of the schedule it is resumed under (all k, all schedule pairs). ITERABLE datasets "
+        "(SdlIterProofs.v): any two schedules give the same epoch for every configuration (C05_iter_schedule_independent), and 'a checkpoint never reflects work a fast worker has prefetched "
+        "beyond the last batch handed to the user' is proved for every configuration, interval, k and schedule (C05_iter_checkpoint_never_ahead: every worker-state entry is the state after "
+        "the answer to an already passed task, never after a buffered or outstanding one). Correspondence: the same "
         "checkpoint/resume history is run with REAL worker processes under four adversarial arrival-schedule pairs (always-first, always-last, rotating, random) per configuration and "
         "interruption point; streams and continuations must coincide across schedules and with the reference; checkpointed worker positions must equal the items handed to the user (never the "
         "prefetched position); each realised schedule is replayed in the model and compared step by step.",
    design="DESIGN.md 4 C05",
-   note="Proof scope: map-style; iterable datasets (where worker state deltas must be applied at yield time, not at arrival) by adversarial-schedule correspondence. Trusted: Coq kernel + "
+   note="Proof scope: map-style in full; iterable datasets: output independence and never-ahead entries in full, continuation independence for interval 0 (C01) and on the small scope "
+        "otherwise, plus adversarial-schedule correspondence. Trusted: Coq kernel + "
         "vm_compute; arrival-scheduling context (every arrival order consistent with per-worker FIFO is realisable and is a model schedule).",
    technique="Coq proof over hand-written Gallina model (schedule-quantified) + lockstep correspondence under adversarial scheduled arrival + direct oracle")
 CHECKS["C10"] = dict(
